@@ -232,6 +232,7 @@ func (bkt *Bucket) open(bucketID int, home string) (err error) {
 		for i := 0; i < bkt.TreeID.Chunk; i++ {
 			bkt.checkHintWithData(i)
 		}
+		verifPoint("open.bgcheck.done")
 	}()
 
 	if bkt.checkForDump(Conf.TreeDump) {
